@@ -12,6 +12,13 @@ VALGRIND_T = [{"flavor": "valgrind", "shards": 4, "scale": 0.002, "extra": {"imp
 ASAN_T = [{"flavor": "asan", "shards": 4, "scale": 0.015, "extra": {"impl": "mapped"}, "tag": "asan"}, {"flavor": "asan", "shards": 4, "scale": 0.015, "extra": {"impl": "offset"}, "tag": "asan"}]
 BOTH_T = [{"flavor": "debug", "shards": 8}, {"flavor": "release", "shards": 8}]
 
+
+def m32(scale, shards=4, timeout=3000):
+    """the pure properties once more on a 32-bit target (i686 under Miri): usize is 32 bits wide there, which is where the
+    crate's own cfg(target_pointer_width) branches and every u64<->usize conversion behave differently"""
+    return [{"flavor": "miri32", "shards": shards, "scale": scale, "tag": "i686", "timeout": timeout}]
+
+
 COMMON_ASSUME = [
     "the harness is rebuilt from /repo's working tree with --cfg x86_64_verif; the monitors observe the real crate code",
     "verdict covers only the executions produced (sampled inputs; finite sub-spaces listed as exhaustive_subspaces are complete)",
@@ -27,7 +34,7 @@ PLANS = {
                 "one program op; distinct_nontrivial counts distinct (build profile, operation, outcome ok/none/panic, input class / "
                 "address half) tuples.",
         "assumptions": COMMON_ASSUME + ["unsafe constructors (new_unsafe, from_start_address_unchecked) are outside the property"],
-        "quick": BOTH_Q, "thorough": BOTH_T + [{"flavor": "miri", "shards": 2, "scale": 3e-07, "tag": "miri-slice", "timeout": 3000}],
+        "quick": BOTH_Q, "thorough": BOTH_T + [{"flavor": "miri", "shards": 2, "scale": 3e-07, "tag": "miri-slice", "timeout": 3000}] + m32(3e-07, 2),
     },
     "C04": {
         "level": "exploration",
@@ -37,7 +44,7 @@ PLANS = {
                 "512^3 2MiB tuples, every 4KiB index position over all 512 values x 8^3 universe; plus random canonical addresses and "
                 "index quadruples. distinct_nontrivial counts distinct (profile, direction, size, input class, half, p4 class) tuples.",
         "assumptions": COMMON_ASSUME,
-        "quick": BOTH_Q, "thorough": BOTH_T,
+        "quick": BOTH_Q, "thorough": BOTH_T + m32(1e-06),
     },
     "C05": {
         "level": "exploration",
@@ -48,7 +55,7 @@ PLANS = {
                 "exhaustive 512 starts x counts 0..=1024 + big counts and all 512^2 pairs. distinct_nontrivial counts distinct "
                 "(profile, type, half, count class, relation of count to gap distance, forward/backward success) tuples.",
         "assumptions": COMMON_ASSUME,
-        "quick": BOTH_Q, "thorough": BOTH_T,
+        "quick": BOTH_Q + m32(6e-05, 1, 800), "thorough": BOTH_T + m32(4e-06),
     },
     "C06": {
         "level": "exploration",
@@ -58,7 +65,7 @@ PLANS = {
                 "as the panic case; containing_address/from_start_address for pages and frames of the three sizes. "
                 "distinct_nontrivial counts distinct (profile, type, alignment exponent or npot, address class, ok/panic) tuples.",
         "assumptions": COMMON_ASSUME + ["alignments above 2^47 on VirtAddr are only checked for canonicity (the property excludes them)"],
-        "quick": BOTH_Q, "thorough": BOTH_T,
+        "quick": BOTH_Q, "thorough": BOTH_T + m32(2e-06),
     },
     "C07": {
         "level": "exploration",
@@ -70,7 +77,7 @@ PLANS = {
                 "distinct_nontrivial counts distinct (profile, type, size, operand class, outcome exact/panic, range end class, "
                 "length class) tuples.",
         "assumptions": COMMON_ASSUME + ["range lengths bounded by iteration time (quick <= 5000, thorough <= 10^6 items)"],
-        "quick": BOTH_Q, "thorough": BOTH_T,
+        "quick": BOTH_Q + m32(5e-04, 1, 800), "thorough": BOTH_T + m32(2e-05),
     },
     "C08": {
         "level": "exploration",
@@ -81,7 +88,7 @@ PLANS = {
                 "after writes through each path, is_empty/zero/new/clone/default on zero and garbage memory. distinct_nontrivial counts "
                 "distinct (profile, op, resulting state class) tuples.",
         "assumptions": COMMON_ASSUME + ["flags restricted to bits 0-11 and 52-63 as the property states (bit 12 overlaps the address field)"],
-        "quick": BOTH_Q, "thorough": BOTH_T + [{"flavor": "miri", "shards": 2, "scale": 2e-06, "tag": "miri-slice", "timeout": 3000}],
+        "quick": BOTH_Q, "thorough": BOTH_T + [{"flavor": "miri", "shards": 2, "scale": 2e-06, "tag": "miri-slice", "timeout": 3000}] + m32(2e-06, 2),
     },
 
     "C01": {
